@@ -72,4 +72,14 @@ structure CacheStatusView where
   stored : Bool
   deriving Repr, DecidableEq
 
+/-- what `cache.MakeFromRequest` reads of the `*http.Request`: `r.TLS != nil`, `r.Method`, `r.Host`,
+    `r.URL.EscapedPath()`, `r.URL.RawQuery` (byte strings). -/
+structure ReqView where
+  tls : Bool
+  method : Str
+  host : Str
+  escapedPath : Str
+  rawQuery : Str
+  deriving Repr, DecidableEq
+
 end Rv.SrcViews
